@@ -327,6 +327,62 @@ def mk(ninputs, nsteps, parallel, _replay=None):
     return {"status": "holds", "paths": stats["paths"], "queries": nq, "detail": f"{ninputs} inputs x {nsteps} steps, parallel={parallel}: {stats['paths']} outcome/order combinations", "solver_s": round(time.time() - t0, 2)}
 
 
+# ---------------------------------------------------------------- a failure record can be built from whatever value was being processed
+SOURCE_KINDS = ["none", "str", "path", "obj_source", "obj_info_source", "dict_info_source", "dict_source", "dict_info_str", "dict_info_none",
+                "dict_info_list", "dict_empty", "int", "list", "obj_source_dict_bad"]
+
+
+def mk_not_completed_source():
+    """NotCompleted(type, origin, message, source=<the value a step was given>) is what turns a failing record into data. It must
+    never raise, whatever the value looks like (CrossHair: the kind of value is a symbolic index, the text a symbolic string), and
+    its .source is the identifier the value carries, or None when it carries none."""
+
+    def check(kind: int, text: str) -> bool:
+        """
+        pre: 0 <= kind < len(SOURCE_KINDS)
+        pre: 1 <= len(text) <= 2 and all(c in "ab." for c in text)
+        post: _
+        """
+        (kind, text), untraced = W.concrete((kind, text))  # dict literals are proxy mappings under tracing; singledispatch needs real types
+        with untraced:
+            return body(kind, text)
+
+    def body(kind, text):
+        import pathlib
+        import types
+
+        from cogent3.app.composable import NotCompleted
+
+        k = SOURCE_KINDS[kind]
+        name = "f" + text
+        value, want = {
+            "none": (None, None),
+            "str": ("dir/" + name, name),
+            "path": (pathlib.Path("dir") / name, name),
+            "obj_source": (types.SimpleNamespace(source="dir/" + name), name),
+            "obj_info_source": (types.SimpleNamespace(info=types.SimpleNamespace(source=name), source=None), None),
+            "dict_info_source": ({"info": {"source": name}}, name),
+            "dict_source": ({"source": name, "x": 1}, name),
+            "dict_info_str": ({"info": "free text " + name, "x": 1}, None),
+            "dict_info_none": ({"info": None}, None),
+            "dict_info_list": ({"info": [name]}, None),
+            "dict_empty": ({}, None),
+            "int": (3, None),
+            "list": ([name], None),
+            "obj_source_dict_bad": (types.SimpleNamespace(source={"info": 5}), None),
+        }[k]
+        nc = NotCompleted("ERROR", "step1", "message " + name, source=value)  # must not raise
+        if not W.reach("end"):
+            return False
+        if bool(nc) or nc.type != "ERROR" or nc.origin != "step1":
+            return False
+        if k in ("dict_info_str", "dict_info_none", "dict_info_list", "obj_source_dict_bad", "obj_info_source"):
+            return True  # no identifier can be read from these: only "does not raise" is claimed
+        return nc.source == want
+
+    return check
+
+
 ENCODED = [("src/cogent3/util/parallel.py", ["as_completed", "_as_completed_mproc"]), ("src/cogent3/app/composable.py", ["define_app", "_class_from_func", "__add__ composition", "_call", "_validate_data_type", "_source_wrapped", "_proxy_input", "source_proxy", "_as_completed", "_apply_to", "NotCompleted", "_get_origin"])]
 BOUNDS = {
     "quick": ["loader + 1..2 generic steps + writer; 2 inputs x 2 steps and 3 inputs x 1 step; per-record per-step outcome in {ok, raises, returns None, returns wrong type} (symbolic); completion order: every permutation (symbolic); payloads symbolic reals",
@@ -350,6 +406,7 @@ def obligations(tier):
     for n, k in shapes:
         for par in (False, True):
             obs.append(Ob(f"apply_to/in{n}/steps{k}/{'parallel' if par else 'serial'}", __name__, "mk", {"ninputs": n, "nsteps": k, "parallel": par}, kind="direct", timeout=1800, group="apply_to"))
+    obs.append(Ob("not_completed_source", __name__, "mk_not_completed_source", {}, kind="crosshair", timeout=900, group="records", grade="realised-input"))
     return obs
 
 
